@@ -345,6 +345,26 @@ func checkC04(r *core.Run) {
 			}
 		}
 	}
+	// the same conditionals after a plain action in the context of one alternative (an analyser that remembers its
+	// decision for a context must not reuse it for the conditional one)
+	for _, e1 := range []string{"img", "script", "a", "iframe", "audio", "link"} {
+		for _, e2 := range []string{"img", "script", "a", "iframe", "audio", "link"} {
+			for _, a := range []string{"src", "href", "title"} {
+				rv := combine(tab.Class(e1, a), tab.Class(e2, a))
+				for _, prime := range []string{e1, e2} {
+					cjobs = append(cjobs, cj{"<" + prime + " " + a + "=\"{{$.P0}}\">{{if $.C}}<" + e1 + "{{else}}<" + e2 + "{{end}} " + a + "=\"{{$.P0}}\">", rv, "conditional-element-after-plain-action"})
+				}
+			}
+		}
+	}
+	for _, x := range []string{"title", "href", "src", "id", "style"} {
+		for _, y := range []string{"title", "href", "src", "id", "style"} {
+			rv := combine(tab.Class("a", x), tab.Class("a", y))
+			for _, prime := range []string{x, y} {
+				cjobs = append(cjobs, cj{"<a " + prime + "=\"{{$.P0}}\">x</a><a {{if $.C}}" + x + "{{else}}" + y + "{{end}}=\"{{$.P0}}\">", rv, "conditional-attribute-after-plain-action"})
+			}
+		}
+	}
 	// attribute names assembled from pieces: the value must be judged by the name a browser sees
 	for _, e := range []string{"a", "img"} {
 		for _, a1 := range []string{"title", "data-x", "alt", "href", "x"} {
